@@ -46,6 +46,20 @@ def run(cx):
             cx.violation("a history of %d inputs does not behave like the whole program: input %d (%r) gave %s; final value %s (expected %d)" % (
                 len(ps), i, r["pieces"][i], json.dumps(ps[i])[:200], json.dumps(last.get("v")), exp),
                 {"leg": "long-history", "pieces": r["pieces"][:3] + ["..."], "first_bad_index": i, "bad": ps[i], "last": last})
+    # ---- known findings: replay each pinned witness history (the last input must end as the finding says it should)
+    for f in cx.known_findings():
+        w = f.get("witness", {})
+        if "pieces" not in w:
+            continue
+        wp, wo = cx.path("witness_%s.ndjson" % f["id"]), cx.path("witness_%s.out.ndjson" % f["id"])
+        vlib.write_ndjson(wp, [{"id": 0, "pieces": w["pieces"], "globals": []}])
+        cx.run([lang, "pieces", "-in", wp, "-out", wo], timeout=300)
+        res = vlib.read_ndjson(wo)[0]["res"]
+        last = (res.get("pieces") or [{}])[-1]
+        if res.get("k") == "done" and last.get("k") == w["expected_last"]["k"] and last.get("v") == w["expected_last"].get("v"):
+            cx.notes.append("known finding %s: witness no longer fails" % f["id"])
+        else:
+            cx.report_known(f)
     cases = []
     by_id = {}
     sp_bad = []
